@@ -312,3 +312,166 @@ theorem feed_C (hc : CntOk o) {st : St} {f : Frame} {rest : List Frame} {q : Pat
     rw [hfe]
 
 end PdshVerif.Pcp
+
+namespace PdshVerif.Pcp
+open PdshVerif.Gen
+variable {o : Opts}
+
+/-! ## `T`, `D` and `E` records -/
+
+def tBody (t a : Nat) : Str := dec t ++ cSp :: (dec 0 ++ cSp :: (dec a ++ cSp :: (dec 0 ++ [])))
+
+theorem tRecord_eq (t a : Nat) : tRecord t a = cT :: tBody t a ++ [cNl] := by
+  simp [tRecord, tBody, dec_zero]
+
+theorem tBody_props (t a : Nat) (ht : t < 2 ^ 63) (ha : a < 2 ^ 63) :
+    cNl ∉ tBody t a ∧ (∀ x ∈ tBody t a, x ≠ 0) ∧ (tBody t a).length + 2 < BUFSZ - 1 := by
+  have hB := BUFSZ_eq
+  have h1 := dec_length_le t ht
+  have h2 := dec_length_le a ha
+  have hnl : ∀ k, ∀ x ∈ dec k, x ≠ cNl := fun k => dec_mem k (· ≠ cNl) (fun d hd => digitByte_ne_nl hd)
+  have hz : ∀ k, ∀ x ∈ dec k, x ≠ 0 := fun k => dec_mem k (· ≠ 0) (fun d hd => digitByte_ne_zero hd)
+  refine ⟨?_, ?_, ?_⟩
+  · intro hmem
+    simp only [tBody, List.mem_append, List.mem_cons, List.not_mem_nil, or_false] at hmem
+    rcases hmem with h | h | h | h | h | h | h
+    · exact hnl _ _ h rfl
+    · revert h; decide
+    · exact hnl _ _ h rfl
+    · revert h; decide
+    · exact hnl _ _ h rfl
+    · revert h; decide
+    · exact hnl _ _ h rfl
+  · intro x hmem
+    simp only [tBody, List.mem_append, List.mem_cons, List.not_mem_nil, or_false] at hmem
+    rcases hmem with h | h | h | h | h | h | h
+    · exact hz _ _ h
+    · subst h; decide
+    · exact hz _ _ h
+    · subst h; decide
+    · exact hz _ _ h
+    · subst h; decide
+    · exact hz _ _ h
+  · simp only [tBody, List.length_append, List.length_cons, dec_zero, List.length_nil]
+    omega
+
+/-- a `T` record is acknowledged and remembered in the current level -/
+theorem feed_T {st : St} {f : Frame} {rest : List Frame} (hph : st.phase = .start) (hs : st.stack = f :: rest)
+    (t a : Nat) (ht : t < 2 ^ 63) (ha : a < 2 ^ 63) :
+    (tRecord t a).foldl (step o) st =
+      { st with out := .ack :: st.out,
+                stack := { f with setimes := true, mt := ⟨t, 0⟩, atm := ⟨a, 0⟩ } :: rest, phase := .start } := by
+  obtain ⟨hnl, hz, hlen⟩ := tBody_props t a ht ha
+  rw [tRecord_eq, foldl_line st hph cT _ (by decide) hnl hlen]
+  apply handleRecord_times hs
+  rw [classify_line cT _ (by decide) (by decide) (by decide) (by
+    intro x hx
+    simp only [List.mem_cons] at hx
+    rcases hx with rfl | hx
+    · decide
+    · exact hz x hx)]
+  simp only [↓reduceIte]
+  unfold classifyT tBody
+  rw [parseTimes_print t a ht ha]
+
+theorem statIsDir_of {fs : FS} {cwd : Path} {s : Str} {p : Path} (hr : resolve fs cwd s = some p)
+    (hd : fs.isDir p = true) : statIsDir fs cwd s = true := by
+  unfold statIsDir stat
+  rw [hr]
+  unfold FS.isDir at hd
+  cases hf : fs p with
+  | none => simp [hf] at hd
+  | some nd =>
+    simp only [hf] at hd ⊢
+    simp [hd]
+
+/-- the `_verifydir` check of every level start passes -/
+def VerifyOk (o : Opts) (fs : FS) : Prop :=
+  o.targetIsDir = true → ∃ p, resolve fs o.cwd o.dest = some p ∧ fs.isDir p = true
+
+theorem verifyOk_mono {fs fs' : FS} (h : DirMono fs fs') (hv : VerifyOk o fs) : VerifyOk o fs' := by
+  intro ht
+  obtain ⟨p, hr, hd⟩ := hv ht
+  exact ⟨p, resolve_mono h hr, h p hd⟩
+
+theorem enter_ok {st : St} {targ : Str} {p : Path} (hv : VerifyOk o st.fs)
+    (hr : resolve st.fs o.cwd targ = some p) (hd : st.fs.isDir p = true) :
+    enter o st targ =
+      { st with out := .ack :: st.out,
+                stack := { targ := targ, targisdir := true, setimes := false, mt := default, atm := default }
+                          :: st.stack,
+                phase := .start } := by
+  unfold enter
+  have hver : (o.targetIsDir && !statIsDir st.fs o.cwd o.dest) = false := by
+    cases ht : o.targetIsDir with
+    | false => rfl
+    | true =>
+      obtain ⟨p', hr', hd'⟩ := hv ht
+      simp [statIsDir_of hr' hd']
+  simp only [hver, Bool.false_eq_true, ↓reduceIte, St.reply, statIsDir_of hr hd]
+
+/-- the node a directory of the source arrives as when it is created -/
+def recvDirNode (o : Opts) (fs : FS) (q : Path) (n : Str) (m : Nat) : Node :=
+  .dir (mkdirMode (m &&& RCP_MODEMASK) o.eumask (parentMode fs (q ++ [n]))) none
+
+/-- **A `D` record for a new name** creates the directory and opens a level inside it. -/
+theorem feed_D {st : St} {f : Frame} {rest : List Frame} {q : Path}
+    (hph : st.phase = .start) (hs : st.stack = f :: rest) (htd : f.targisdir = true)
+    (hr : resolve st.fs o.cwd f.targ = some q) (hd : st.fs.isDir q = true) (hv : VerifyOk o st.fs)
+    {n : Str} (hn : GoodName n) (hfresh : st.fs (q ++ [n]) = none)
+    (hlen : f.targ.length + n.length + 1 < PCP_PATH_MAX) (m : Nat) :
+    (dRecord m n).foldl (step o) st =
+      { st with
+        fs := (st.fs.bumpDir q).set (q ++ [n]) (recvDirNode o st.fs q n m)
+        out := .ack :: st.out
+        touched := (q ++ [n]) :: st.touched
+        stack := { targ := joinName f.targ n, targisdir := true, setimes := false, mt := default, atm := default }
+                  :: f :: rest
+        phase := .start } := by
+  obtain ⟨hnl, _, hlen2⟩ := ctlBody_props (m &&& RCP_MODEMASK) 0 hn (by decide)
+  rw [dRecord_eq, foldl_line st hph cD _ (by decide) hnl hlen2,
+    handleRecord_ctl hs (classify_ctl cD (Or.inr rfl) _ _ hn (and_mask_lt m) (by decide))
+      (nameOk_plain _ hn.plain) htd]
+  have hbeq : (cD == cD) = true := by decide
+  simp only [hbeq, ↓reduceIte]
+  have hrj := resolve_join hr hd hn.plain hn.short hlen
+  unfold handleDir
+  simp only [stat_fresh hrj hfresh, mkdir_fresh _ _ hrj hfresh]
+  have hmono : DirMono st.fs ((st.fs.bumpDir q).set (q ++ [n]) (recvDirNode o st.fs q n m)) :=
+    (dirMono_bumpDir _ _).trans (dirMono_set_fresh _ (bumpDir_none _ _ _ hfresh))
+  rw [enter_ok (p := q ++ [n])]
+  · simp only [St.touch, hs, recvDirNode]
+  · exact verifyOk_mono hmono hv
+  · exact resolve_mono hmono hrj
+  · simp only [St.touch, FS.isDir, set_self, recvDirNode, Node.isDir]
+
+theorem exitFlag_eq : exitFlag = cE :: [] ++ [cNl] := by decide
+
+/-- **`E`** is acknowledged, closes the level and applies the pending times to the directory. -/
+theorem feed_E {st : St} {ch f : Frame} {rest : List Frame} {q' : Path} {mode : Nat} {tm : Option Time}
+    (hph : st.phase = .start) (hs : st.stack = ch :: f :: rest)
+    (hr : resolve st.fs o.cwd ch.targ = some q') (hnode : st.fs q' = some (.dir mode tm))
+    (hts : trailingSlash ch.targ = false) (hus : usecOk f.atm = true ∧ usecOk f.mt = true) :
+    exitFlag.foldl (step o) st =
+      { st with
+        fs := if f.setimes then st.fs.set q' (.dir mode (some f.mt)) else st.fs
+        out := .ack :: st.out
+        touched := (if f.setimes then [q'] else []) ++ st.touched
+        stack := { f with setimes := false } :: rest
+        phase := .start } := by
+  have hB := BUFSZ_eq
+  rw [exitFlag_eq, foldl_line st hph cE [] (by decide) (by simp) (by simp; omega),
+    handleRecord_exit hs (by decide)]
+  unfold leave
+  simp only [St.reply, hs]
+  by_cases hset : f.setimes = true
+  · have hut : utimes st.fs o.cwd ch.targ f.atm f.mt = some (st.fs.set q' (.dir mode (some f.mt)), q') := by
+      unfold utimes
+      simp only [hus.1, hus.2, Bool.and_self, Bool.not_true, Bool.false_eq_true, ↓reduceIte,
+        stat_some hr hnode hts, Node.setMtime]
+    simp only [hset, ↓reduceIte, doUtimes, hut, List.cons_append, List.nil_append]
+  · have hf' : f.setimes = false := by simpa using hset
+    have hfe : ({ f with setimes := false } : Frame) = f := by cases f; simp_all
+    simp only [hf', Bool.false_eq_true, ↓reduceIte, List.nil_append, hfe]
+
+end PdshVerif.Pcp
